@@ -230,6 +230,9 @@ func cmdRun(args []string) {
 		}
 	}
 	b.BaseRuns = nbase
+	for k, v := range o.OracleProbes {
+		b.Probes[k] += v
+	}
 	for f := range fps {
 		b.Fingerprints = append(b.Fingerprints, hex(f))
 	}
